@@ -61,6 +61,7 @@ const (
 	KCombine
 	KLoop
 	KIte // Delay(func() Seq { if C() { return A }; return B })
+	KTwice // v := A; Combine(v, v): ONE Seq value run twice, with different continuations
 )
 
 type CTerm struct {
@@ -133,6 +134,8 @@ func (t *CTerm) Sexp() *sexp.Node {
 			p = t.P.Sexp()
 		}
 		return sexp.L(sexp.A("loop"), c, p, t.A.Sexp())
+	case KTwice:
+		return sexp.L(sexp.A("twice"), t.A.Sexp())
 	case KIte:
 		return sexp.L(sexp.A("ite"), sexp.L(sexp.A("c"), t.C.Sc.Sexp(), sexp.I(t.C.J), sexp.I(t.C.N)), t.A.Sexp(), t.B.Sexp())
 	}
@@ -141,7 +144,7 @@ func (t *CTerm) Sexp() *sexp.Node {
 
 func (t *CTerm) Size() int {
 	switch t.K {
-	case KBind, KDelay, KLoop:
+	case KBind, KDelay, KLoop, KTwice:
 		return 1 + t.A.Size()
 	case KCombine, KIte:
 		return 1 + t.A.Size() + t.B.Size()
@@ -164,6 +167,8 @@ func alwaysNormal(t *CTerm) bool {
 		return alwaysNormal(t.A) && alwaysNormal(t.B)
 	case KIte:
 		return t.C.Sc.Pn == "" && alwaysNormal(t.A) && alwaysNormal(t.B)
+	case KTwice:
+		return alwaysNormal(t.A)
 	}
 	return false
 }
@@ -181,6 +186,8 @@ func mustYield(t *CTerm) bool {
 		return t.C == nil && (t.P == nil || t.P.Pn == "") && mustYield(t.A)
 	case KIte:
 		return t.C.Sc.Pn != "" || (mustYield(t.A) && mustYield(t.B))
+	case KTwice:
+		return mustYield(t.A)
 	}
 	return false
 }
@@ -198,6 +205,8 @@ func yieldsOrExits(t *CTerm) bool {
 		return mustYield(t)
 	case KIte:
 		return t.C.Sc.Pn != "" || (yieldsOrExits(t.A) && yieldsOrExits(t.B))
+	case KTwice:
+		return yieldsOrExits(t.A)
 	}
 	return false
 }
@@ -206,7 +215,7 @@ func yieldsOrExits(t *CTerm) bool {
 // with a condition always stops; a loop without one must yield or exit in every iteration)
 func Finite(t *CTerm) bool {
 	switch t.K {
-	case KBind, KDelay:
+	case KBind, KDelay, KTwice:
 		return Finite(t.A)
 	case KCombine, KIte:
 		return Finite(t.A) && Finite(t.B)
